@@ -946,15 +946,12 @@ theorem sErrL_eraseL (ks : List Node) : sErrL (eraseL ks) = sErrL ks := by
   exact any_congr' (fun k _ => by simpa using (shr_ref k).1)
 
 omit hg in
-/-- `shrink_defs` on a well-formed object without a doubly tagged group succeeds and is the shrink rewrite -/
-theorem shrink_ok (o : Obj) (hw : WF o) (hs : sErrL o.kids = false) :
+/-- `shrink_defs` on a well-formed object succeeds and is the shrink rewrite -/
+theorem shrink_ok (o : Obj) (hw : WF o) :
     ∃ o', shrinkG true o = .ok o' ∧ WF o' ∧ eraseL o'.kids = sSL (eraseL o.kids) := by
   obtain ⟨hc, hk⟩ := hw
-  have hs' : shrErrL o.kids = false := by
-    rw [shrErrL_any, ← hs, sErrL_any]
-    exact any_congr' (fun k hx => shrErr_spec k (hk k hx))
   refine ⟨{ o with kids := shrL true o.kids }, ?_, ⟨hc, ?_⟩, ?_⟩
-  · simp [shrinkG, hc, hs']
+  · simp [shrinkG, hc]
   · intro k hx
     simp only [shrL_map] at hx
     obtain ⟨m, hm, rfl⟩ := List.mem_map.1 hx
@@ -1115,15 +1112,14 @@ theorem expand_idem (o : Obj) (hw : WF o) :
   exact ⟨o1, o2, h1, h2, this, render_of_erase w2.1 w1.1 this⟩
 
 /-- **shrink_expand**: shrinking after expanding is shrinking (every Def-expand group, written or produced by
-the expansion, is back in `Def` form); no step fails when no group carries two Def-expand tags. -/
-theorem shrink_expand (o : Obj) (hw : WF o) (hs : sErrL o.kids = false) :
+the expansion, is back in `Def` form — a written group with several Def-expand tags collapses to its first
+one, with or without the expansion in between); no step fails. -/
+theorem shrink_expand (o : Obj) (hw : WF o) :
     ∃ o1 o2 os, expandG fold true dd o = .ok o1 ∧ shrinkG true o1 = .ok o2 ∧ shrinkG true o = .ok os ∧
       eraseL o2.kids = eraseL os.kids ∧ render o2 = render os := by
   obtain ⟨o1, h1, w1, e1⟩ := expand_ok fold hg o hw
-  have hs1 : sErrL o1.kids = false := by
-    rw [← sErrL_eraseL, e1, sErrL_sEL fold hg, sErrL_eraseL]; exact hs
-  obtain ⟨o2, h2, w2, e2⟩ := shrink_ok o1 w1 hs1
-  obtain ⟨os, h3, w3, e3⟩ := shrink_ok o hw hs
+  obtain ⟨o2, h2, w2, e2⟩ := shrink_ok o1 w1
+  obtain ⟨os, h3, w3, e3⟩ := shrink_ok o hw
   have : eraseL o2.kids = eraseL os.kids := by rw [e2, e1, sSL_sEL fold hg, e3]
   exact ⟨o1, o2, os, h1, h2, h3, this, render_of_erase w2.1 w3.1 this⟩
 
@@ -1170,18 +1166,15 @@ original (same tree up to bookkeeping, same printout), and neither step fails. -
 theorem shrink_expand_original (o : Obj) (hw : WF o) (hnd : ∀ t ∈ allTagsL o.kids, t.base ≠ .defExpand) :
     ∃ o1 o2, expandG fold true dd o = .ok o1 ∧ shrinkG true o1 = .ok o2 ∧
       eraseL o2.kids = eraseL o.kids ∧ render o2 = render o := by
-  have hs := (noDE_fixedL o.kids hnd).2
-  obtain ⟨o1, o2, os, h1, h2, h3, e, _⟩ := shrink_expand fold hg o hw hs
-  obtain ⟨os', h3', w3, e3⟩ := shrink_ok o hw hs
+  obtain ⟨o1, o2, os, h1, h2, h3, e, _⟩ := shrink_expand fold hg o hw
+  obtain ⟨os', h3', w3, e3⟩ := shrink_ok o hw
   have : os' = os := by rw [h3] at h3'; cases h3'; rfl
   subst this
   have hw2 : o2.cyclic = false := by
     obtain ⟨o1', h1', w1, e1⟩ := expand_ok fold hg o hw
     have : o1' = o1 := by rw [h1] at h1'; cases h1'; rfl
     subst this
-    have hs1 : sErrL o1'.kids = false := by
-      rw [← sErrL_eraseL, e1, sErrL_sEL fold hg, sErrL_eraseL]; exact hs
-    obtain ⟨o2', h2', w2, _⟩ := shrink_ok o1' w1 hs1
+    obtain ⟨o2', h2', w2, _⟩ := shrink_ok o1' w1
     have : o2' = o2 := by rw [h2] at h2'; cases h2'; rfl
     subst this; exact w2.1
   have he : eraseL o2.kids = eraseL o.kids := by
@@ -1240,48 +1233,44 @@ theorem canon_step (m : Mode) (op : Op) (t : List Node) :
   cases m <;> cases op <;>
     simp [canon, next, sEL_idem fold hg, sSL_sEL fold hg, sSL_idem]
 
-theorem history_aux : ∀ (ops : List Op) (o : Obj) (m : Mode) (t : List Node), WF o → sErrL t = false →
+theorem history_aux : ∀ (ops : List Op) (o : Obj) (m : Mode) (t : List Node), WF o →
     eraseL o.kids = canon fold dd m t →
     ∃ o', runG fold true true dd o ops = .ok o' ∧ WF o' ∧ eraseL o'.kids = canon fold dd (ops.foldl next m) t := by
   intro ops
   induction ops with
-  | nil => intro o m t hw _ he; exact ⟨o, rfl, hw, he⟩
+  | nil => intro o m t hw he; exact ⟨o, rfl, hw, he⟩
   | cons op ops ih =>
-    intro o m t hw ht he
-    have hcs : sErrL (canon fold dd m t) = false := by
-      cases m <;> simp [canon, sErrL_sEL fold hg, sErrL_sSL, ht]
-    have hso : sErrL o.kids = false := by rw [← sErrL_eraseL, he]; exact hcs
+    intro o m t hw he
     have hstep := canon_step fold hg m op t
     cases op with
     | expand =>
       obtain ⟨o1, h1, w1, e1⟩ := expand_ok fold hg o hw
-      obtain ⟨o', h', w', e'⟩ := ih o1 (next m .expand) t w1 ht (by rw [e1, he]; exact hstep)
+      obtain ⟨o', h', w', e'⟩ := ih o1 (next m .expand) t w1 (by rw [e1, he]; exact hstep)
       exact ⟨o', by simp [runG, stepG, h1, h'], w', by simpa using e'⟩
     | shrink =>
-      obtain ⟨o1, h1, w1, e1⟩ := shrink_ok o hw hso
-      obtain ⟨o', h', w', e'⟩ := ih o1 (next m .shrink) t w1 ht (by rw [e1, he]; exact hstep)
+      obtain ⟨o1, h1, w1, e1⟩ := shrink_ok o hw
+      obtain ⟨o', h', w', e'⟩ := ih o1 (next m .shrink) t w1 (by rw [e1, he]; exact hstep)
       exact ⟨o', by simp [runG, stepG, h1, h'], w', by simpa using e'⟩
     | copy =>
-      obtain ⟨o', h', w', e'⟩ := ih o (next m .copy) t hw ht (by rw [he]; exact hstep)
+      obtain ⟨o', h', w', e'⟩ := ih o (next m .copy) t hw (by rw [he]; exact hstep)
       exact ⟨o', by simp [runG, stepG, copy, h'], w', by simpa using e'⟩
     | str =>
-      obtain ⟨o', h', w', e'⟩ := ih o (next m .str) t hw ht (by rw [he]; exact hstep)
+      obtain ⟨o', h', w', e'⟩ := ih o (next m .str) t hw (by rw [he]; exact hstep)
       exact ⟨o', by simp [runG, stepG, render, hw.1, Except.map, h'], w', by simpa using e'⟩
     | validate =>
-      obtain ⟨o', h', w', e'⟩ := ih o (next m .validate) t hw ht (by rw [he]; exact hstep)
+      obtain ⟨o', h', w', e'⟩ := ih o (next m .validate) t hw (by rw [he]; exact hstep)
       exact ⟨o', by simp [runG, stepG, validate_identity fold o hw.1, h'], w', by simpa using e'⟩
 
 /-- **expand_shrink_history**: for every finite sequence of expand / shrink / copy / str / validate on one
-well-formed object (no group with two Def-expand tags) no step fails, the object stays well-formed, and the
+well-formed object no step fails, the object stays well-formed, and the
 final tree (hence the printout) is: the original if the sequence has no expand/shrink; its expansion if it
 has only expands; its shrunk form if the last of them is a shrink; the expansion of its shrunk form if a
 shrink occurred and the last is an expand. -/
-theorem expand_shrink_history (o : Obj) (hw : WF o) (hs : sErrL o.kids = false) (ops : List Op) :
+theorem expand_shrink_history (o : Obj) (hw : WF o) (ops : List Op) :
     ∃ o', runG fold true true dd o ops = .ok o' ∧ WF o' ∧
       eraseL o'.kids = canon fold dd (ops.foldl next .id) (eraseL o.kids) ∧
       render o' = .ok (strL (canon fold dd (ops.foldl next .id) (eraseL o.kids))) := by
-  obtain ⟨o', h, w, e⟩ := history_aux fold hg ops o .id (eraseL o.kids) hw
-    (by rw [sErrL_eraseL]; exact hs) rfl
+  obtain ⟨o', h, w, e⟩ := history_aux fold hg ops o .id (eraseL o.kids) hw rfl
   refine ⟨o', h, w, e, ?_⟩
   simp only [render, w.1, Bool.false_eq_true, if_false]
   rw [← strL_eraseL, e]
@@ -1313,15 +1302,15 @@ on one well-formed object and cut it anywhere (`p` = what has run so far, `q` = 
 state reached after `p` is — tree up to bookkeeping, and printout — the state reached by `p` with every
 `validate` removed; and the printout is the pure function of (source tree, definitions, last expand/shrink in
 `p`) given by `canon`.  So `validate` is a no-op on the observable state at every point of every history. -/
-theorem validate_preserves_expand_shrink (o : Obj) (hw : WF o) (hs : sErrL o.kids = false) (p q : List Op) :
+theorem validate_preserves_expand_shrink (o : Obj) (hw : WF o) (p q : List Op) :
     ∃ o1 o2 o3, runG fold true true dd o (p ++ q) = .ok o3 ∧ runG fold true true dd o p = .ok o1 ∧
       runG fold true true dd o1 q = .ok o3 ∧
       runG fold true true dd o (p.filter (fun op => op != Op.validate)) = .ok o2 ∧
       eraseL o1.kids = eraseL o2.kids ∧ render o1 = render o2 ∧
       render o1 = .ok (strL (canon fold dd (p.foldl next .id) (eraseL o.kids))) := by
-  obtain ⟨o3, h3, _, _, _⟩ := expand_shrink_history fold hg o hw hs (p ++ q)
-  obtain ⟨o1, h1, w1, e1, r1⟩ := expand_shrink_history fold hg o hw hs p
-  obtain ⟨o2, h2, w2, e2, _⟩ := expand_shrink_history fold hg o hw hs (p.filter (fun op => op != Op.validate))
+  obtain ⟨o3, h3, _, _, _⟩ := expand_shrink_history fold hg o hw (p ++ q)
+  obtain ⟨o1, h1, w1, e1, r1⟩ := expand_shrink_history fold hg o hw p
+  obtain ⟨o2, h2, w2, e2, _⟩ := expand_shrink_history fold hg o hw (p.filter (fun op => op != Op.validate))
   have hq : runG fold true true dd o1 q = .ok o3 := by
     have := run_append fold (dd := dd) true true o p q
     rw [h3, h1] at this; exact this.symm
@@ -1340,11 +1329,11 @@ theorem expand_shrink_history_original (o : Obj) (hw : WF o)
         | .s => render os
         | .e => render oe
         | .se => render oe) := by
-  obtain ⟨hfix, hs⟩ := noDE_fixedL o.kids hnd
+  obtain ⟨hfix, _⟩ := noDE_fixedL o.kids hnd
   have hfe := (noDE_fixedL _ (noDE_erase o.kids hnd)).1
-  obtain ⟨o', h, w, e, _⟩ := expand_shrink_history fold hg o hw hs ops
+  obtain ⟨o', h, w, e, _⟩ := expand_shrink_history fold hg o hw ops
   obtain ⟨oe, h1, w1, e1⟩ := expand_ok fold hg o hw
-  obtain ⟨os, h2, w2, e2⟩ := shrink_ok o hw hs
+  obtain ⟨os, h2, w2, e2⟩ := shrink_ok o hw
   have hos : render os = render o := render_of_erase w2.1 hw.1 (by rw [e2, hfe])
   refine ⟨o', oe, os, h, h1, h2, hos, ?_⟩
   cases hm : ops.foldl next .id <;> rw [hm] at e <;> simp only [canon, hfe] at e
